@@ -406,3 +406,109 @@ func TestReconfigure(t *testing.T) {
 		}
 	})
 }
+
+// ---------------------------------------------------------------------------
+// Part "yieldFromIO": Cor.YieldFromIO consumes a MonadIO by subscribing to it, so an
+// ObserveOn handler is honoured: the effect runs exactly once, on the handler's goroutine,
+// and its value is what YieldFromIO returns.
+// Part "simpleapi": the MonadIO returned by a SimpleAPI call is lazy: no serializer call and
+// no request before evaluation; every Eval runs the serializer once and sends one request
+// carrying that body.
+// ---------------------------------------------------------------------------
+
+type yieldIOCase struct {
+	Handler bool `json:"handler"`
+	Cap     int  `json:"cap"`
+	Times   int  `json:"times"`
+	Do      bool `json:"do"` // DoNotation instead of CorNewGenerics+Start
+}
+
+func runYieldIO(c yieldIOCase) (key, msg string, inconclusive bool) {
+	h := fpgo.Handler.NewByCh(make(chan func(), c.Cap))
+	defer h.Close()
+	hid := handlerGoID(h)
+	var mu sync.Mutex
+	var effGs []uint64
+	runs := 0
+	m := fpgo.MonadIONewGenerics(func() int {
+		g := vlib.GoID()
+		mu.Lock()
+		effGs = append(effGs, g)
+		runs++
+		n := runs
+		mu.Unlock()
+		return 100 + n
+	})
+	if c.Handler {
+		m.ObserveOn(h)
+	}
+	var got []int
+	body := func(self *fpgo.CorDef[int]) int {
+		for i := 0; i < c.Times; i++ {
+			got = append(got, self.YieldFromIO(m))
+		}
+		return 0
+	}
+	done := make(chan struct{})
+	go func() {
+		defer close(done)
+		if c.Do {
+			var f fpgo.CorDef[int]
+			f.DoNotation(body)
+			return
+		}
+		fin := make(chan struct{})
+		var co *fpgo.CorDef[int]
+		co = fpgo.CorNewGenerics[int](func() { defer close(fin); body(co) })
+		co.Start()
+		<-fin
+	}()
+	select {
+	case <-done:
+	case <-time.After(vlib.StallBudget()):
+		return "", "", true
+	}
+	mu.Lock()
+	defer mu.Unlock()
+	if runs != c.Times {
+		return "C11/yieldFromIO/effect-count", fmt.Sprintf("%d YieldFromIO calls ran the effect %d times", c.Times, runs), false
+	}
+	for i, v := range got {
+		if v != 101+i {
+			return "C11/yieldFromIO/value", fmt.Sprintf("YieldFromIO #%d returned %d, the IO's value is %d", i+1, v, 101+i), false
+		}
+	}
+	if c.Handler {
+		for _, g := range effGs {
+			if g != hid {
+				return "C11/yieldFromIO/effect-goroutine", "YieldFromIO of a MonadIO with ObserveOn(h): the effect did not run on h's goroutine", false
+			}
+		}
+	}
+	return "", "", false
+}
+
+func TestYieldFromIO(t *testing.T) {
+	if vlib.Replaying() {
+		t.Skip()
+	}
+	vlib.Check(t, "yieldFromIO", 300, 3000, func(t *rapid.T) {
+		c := yieldIOCase{Handler: rapid.IntRange(0, 3).Draw(t, "handler") > 0, Cap: rapid.SampledFrom([]int{0, 1, 4}).Draw(t, "cap"),
+			Times: rapid.IntRange(1, 4).Draw(t, "times"), Do: rapid.Bool().Draw(t, "do")}
+		vlib.S().Eval("yieldFromIO")
+		if c.Handler {
+			vlib.S().NonTrivial("yieldFromIO", fmt.Sprintf("%+v", c))
+		}
+		key, msg, inc := runYieldIO(c)
+		if inc {
+			vlib.S().Class("yieldFromIO/inconclusive")
+			return
+		}
+		if key != "" {
+			vlib.WriteReplay("C11/yieldIO", c)
+			if vlib.Fail(t, key, "%+v: %s", c, msg) {
+				t.Skip("known")
+			}
+		}
+	})
+}
